@@ -121,6 +121,40 @@ theorem advance_none (V : List α) (v : α) (rid : Nat) (h1 : rid ≤ firstGE v 
   have hl : (V.drop rid).length = V.length - rid := by simp
   rw [if_neg (by omega)]
 
+/-- the bounded scan of the spatial loop agrees with the plain one whenever the plain one stays in the table -/
+theorem scanB_eq (v : α) (l : List α) (i : Nat) (h : firstGE v l < l.length) :
+    scanB v l i = some (i + firstGE v l) := by
+  induction l generalizing i with
+  | nil => simp at h
+  | cons w ws ih =>
+    cases ws with
+    | nil =>
+      simp only [firstGE, List.length_cons, List.length_nil] at h
+      split at h
+      · omega
+      · rename_i hw; simp [scanB, firstGE, hw]
+    | cons w' ws =>
+      simp only [scanB]
+      by_cases hw : w < v
+      · simp only [hw, if_true]
+        have h' : firstGE v (w' :: ws) < (w' :: ws).length := by
+          have := h; simp only [firstGE, hw, if_true, List.length_cons] at this ⊢; omega
+        rw [ih (i + 1) h']
+        simp only [firstGE, hw, if_true]
+        congr 1; omega
+      · simp [hw, firstGE]
+
+theorem advanceB_eq (V : List α) (v : α) (rid : Nat) (h1 : rid ≤ firstGE v V)
+    (h2 : firstGE v V < V.length) : advanceB V v rid = some (firstGE v V) := by
+  unfold advanceB
+  have hd := firstGE_drop v V rid h1
+  have hl : (V.drop rid).length = V.length - rid := by simp
+  rw [scanB_eq _ _ _ (by omega)]
+  congr 1; omega
+
+theorem pmin_eq_left (a b : α) (h : a ≤ b) : pmin a b = a := by
+  unfold pmin; rw [if_neg (not_lt_of_ge h)]
+
 end Scan
 
 /-! ### brackets and samples over an ordered field -/
@@ -323,15 +357,16 @@ theorem spatialLoop_eq (P : List (Fix α)) (S : List α) (sini ds : α) (hlen : 
     (hlo : ∀ j, k ≤ j → S[0] < (j : α) * ds + sini)
     (hhi : ∀ j, j < k + n → (j : α) * ds + sini ≤ S[S.length - 1])
     (inv : rid ≤ firstGE ((k : α) * ds + sini) S) :
-    spatialLoop P S sini ds n k rid
+    spatialLoop P S sini (S[S.length - 1]) ds n k rid
       = .ok ((List.range n).map (fun j => sampleS P S (((k + j : Nat) : α) * ds + sini))) := by
   induction n generalizing k rid with
   | zero => simp [spatialLoop]
   | succ n ih =>
     unfold spatialLoop
+    rw [pmin_eq_left _ _ (hhi k (by omega))]
     obtain ⟨hr1, hrlt, hb1, hb2⟩ := firstGE_bracket S ((k : α) * ds + sini) hn (hlo k (le_refl _))
       (hhi k (by omega))
-    have hadv := advance_eq S _ rid inv hrlt
+    have hadv := advanceB_eq S _ rid inv hrlt
     have hrP : firstGE ((k : α) * ds + sini) S < P.length := by omega
     have hlt := lt_of_lt_of_le hb1 hb2
     have hbr := bracket_ok P S ((k : α) * ds + sini) _ hr1 hrP hrlt hlt
@@ -581,6 +616,8 @@ theorem resampleSpatialLegs_eq (trunc : α → Int) (htr : TruncSpec trunc) (P :
   have hS0 : (cum legs)[0]'(by omega) = 0 := cumFrom_head 0 legs
   unfold resampleSpatialLegs
   simp only [hhead, hlast, hPhead, sub_zero, if_pos (Or.inr hds)]
+  rw [show spatialLoop P (cum legs) 0 (polyLen legs) ds = spatialLoop P (cum legs) 0
+    ((cum legs)[(cum legs).length - 1]'(by rw [cum_length]; omega)) ds from by rw [← polyLen_eq]]
   rw [spatialLoop_eq P (cum legs) 0 ds (by omega) (by omega) (le_of_lt hds) _ 1 0 ?_ ?_ (Nat.zero_le _)]
   · simp only []
     congr 2
